@@ -106,7 +106,11 @@ func ErrorCorrection_EncodeECC200(codewords []byte, symbolInfo *SymbolInfo) ([]b
 			}
 			ecc, _ := createECCBlock(temp, errorSizes[block])
 			pos := 0
-			for e := block; e < errorSizes[block]*blockCount; e += blockCount {
+			// Interleaving runs on through data and error codewords alike: codeword n of the
+			// whole sequence belongs to block n % blockCount. Only 144x144 has a data capacity
+			// that is not a multiple of the block count (1558 % 10 == 8).
+			first := (block - symbolInfo.GetDataCapacity()%blockCount + blockCount) % blockCount
+			for e := first; e < errorSizes[block]*blockCount; e += blockCount {
 				sb[symbolInfo.GetDataCapacity()+e] = ecc[pos]
 				pos++
 			}
